@@ -73,7 +73,11 @@ func (v *GVsys) XML(device bool) string {
 	if len(v.Addr) > 0 {
 		b.WriteString(`<address>`)
 		for _, a := range v.Addr {
-			fmt.Fprintf(&b, `<entry name="%s"><ip-netmask>%s</ip-netmask>%s</entry>`, a[0], a[1], v.AddrX[a[0]])
+			tag := "ip-netmask"
+			if !strings.Contains(a[1], "/") && strings.Contains(a[1], "-") {
+				tag = "ip-range" // other kinds of address objects come from raw files
+			}
+			fmt.Fprintf(&b, `<entry name="%s"><%s>%s</%s>%s</entry>`, a[0], tag, a[1], tag, v.AddrX[a[0]])
 		}
 		b.WriteString(`</address>`)
 	}
@@ -161,7 +165,11 @@ type Gen struct {
 func (g *Gen) addr(v *GVsys) string {
 	g.uniq++
 	var name, ip string
-	if g.Rng.Intn(4) == 0 {
+	if g.Rng.Intn(12) == 0 {
+		lo := 1 + g.Rng.Intn(100)
+		ip = fmt.Sprintf("10.4.%d.%d-10.4.%d.%d", g.uniq%250, lo, g.uniq%250, lo+1+g.Rng.Intn(50))
+		name = fmt.Sprintf("RANGE_%d", g.uniq)
+	} else if g.Rng.Intn(4) == 0 {
 		ip = fmt.Sprintf("10.%d.%d.0/24", 20+g.Rng.Intn(3), g.uniq%250)
 		name = "NET_" + strings.NewReplacer("/", "_").Replace(ip)
 	} else {
@@ -499,7 +507,12 @@ func (g *Gen) Device(t []*GVsys, nedits int) ([]*GVsys, []string) {
 			if len(v.Addr) > 0 && g.Rng.Intn(3) != 0 {
 				i := g.Rng.Intn(len(v.Addr))
 				a := v.Addr[i][1]
-				if j := strings.Index(a, "/"); j >= 0 {
+				if k := strings.LastIndex(a, "."); !strings.Contains(a, "/") && k >= 0 {
+					var n int
+					fmt.Sscanf(a[k+1:], "%d", &n)
+					v.Addr[i][1] = fmt.Sprintf("%s.%d", a[:k], nearInt(g.Rng, n, 254))
+					ops = append(ops, "address-near-value")
+				} else if j := strings.Index(a, "/"); j >= 0 {
 					host := a[:j]
 					k := strings.LastIndex(host, ".")
 					var n int
